@@ -56,6 +56,8 @@ type World struct {
 	started map[string]int
 	RunEvts []*pb.Ev_RunEvent
 	RunTS   []time.Time
+	// FailNow makes the probe with that id fail (set by the driver before an operation).
+	FailNow map[string]bool
 }
 
 var cur *World
@@ -97,13 +99,14 @@ func (c *capWriter) WriteEventWithTimestamp(e interface{}, ts time.Time) {
 	if re, ok := e.(*pb.Ev_RunEvent); ok {
 		c.w.RunEvts = append(c.w.RunEvts, re)
 		c.w.RunTS = append(c.w.RunTS, ts)
+		c.w.rec(Rec{Kind: "runevt", ID: re.Transition + "/" + re.TransitionStatus.String(), Vars: map[string]string{"rn": fmt.Sprint(re.RunNumber), "ts": fmt.Sprint(ts.UnixMilli())}})
 	}
 }
 func (c *capWriter) Close() {}
 
 // New builds a fresh world: environment in state DEPLOYED with the given hooks.
 func New(hooks []Hook, state string) *World {
-	w := &World{hooks: map[string]*Hook{}, started: map[string]int{}}
+	w := &World{hooks: map[string]*Hook{}, started: map[string]int{}, FailNow: map[string]bool{}}
 	cur = w
 	vrt.OnSpawn = func(site string, tid int) {
 		if strings.Contains(site, "callable/call.go") && cur != nil {
@@ -223,7 +226,7 @@ func (p *plugin) CallStack(data interface{}) map[string]interface{} {
 			} else {
 				vrt.Yield("probe-latency:" + id)
 			}
-			if h != nil && h.Fail {
+			if (h != nil && h.Fail) || w.FailNow[id] {
 				call.VarStack["__call_error"] = "probe " + id + " failed"
 			}
 			w.rec(Rec{Kind: "end", ID: id, Tid: vrt.ThreadID()})
